@@ -328,6 +328,13 @@ def oracle_c11(h, r):
         items = sorted(((v[0], k) for k, v in st.items()), key=lambda x: (-x[0], x[1]))[:2]
         if tk != ['%d=%d' % (k, v) for v, k in items]:
             fails.append({'what': 'M.topk(2) after epoch %d returned %s, contents give %s' % (e, tk, items)})
+        for name, k, asc in (('M.topk50', 50, False), ('M.topk3a', 3, True)):
+            want = ['%d=%d' % (kk, v) for v, kk in sorted(((v[0], kk) for kk, v in st.items()), key=lambda x: ((x[0] if asc else -x[0]), x[1]))[:k]]
+            for rk in range(h.n):
+                got = Q.get((e, name), {}).get(rk)
+                if got is not None and got.split() != want:
+                    fails.append({'what': '%s (k = %d, %s first) after epoch %d on rank %d returned %s, contents give %s' % (name.split('.')[0] + '.topk', k, 'least' if asc else 'greatest', e, rk, got.split()[:8], want[:8])})
+                    break
         fa = sum(int(x.split()[0]) for x in Q.get((e, 'for_all'), {}).values())
         if fa != sum(len(v) for v in st.values()):
             fails.append({'what': 'M.for_all visited %d entries after epoch %d, size is %d' % (fa, e, sum(len(v) for v in st.values()))})
@@ -373,6 +380,19 @@ def oracle_c12(h, r):
         for toks in W.get('AFTER', []):
             if toks != ['0', '0']:
                 fails.append({'what': 'containers not empty after consume_all: sizes %s' % toks}); break
+        if 'S6C' in W:
+            calls = collections.Counter()
+            for toks in W['S6C']:
+                for kv in toks:
+                    k, n = kv.split('=')
+                    calls[int(k)] += int(n)
+            want = collections.Counter(range(24 * 5))
+            if calls != want:
+                bad = sorted(k for k in set(want) | set(calls) if want[k] != calls[k])[:8]
+                fails.append({'what': 'set consume_all whose callback inserts smaller keys into the same set (24 chains of 5): %d of 120 keys were handed to the callback; wrong counts for keys %s' % (
+                    sum(1 for k in want if calls[k] == 1), {k: calls[k] for k in bad})})
+            if any(t[0] != '0' for t in W.get('S6AFTER', [])):
+                fails.append({'what': 'set not empty after iterated consume_all: %s' % W.get('S6AFTER')})
     elif r.get('verdict') == 'ok':
         fails.append({'what': 'no consume_all output'})
     return fails, cases
@@ -404,6 +424,13 @@ def oracle_c15(h, r):
         items = sorted(exp.items(), key=lambda kv: (-kv[1], kv[0]))[:3]
         if tk != ['%d=%d' % kv for kv in items]:
             fails.append({'what': 'counting_set topk(3) after epoch %d returned %s, expected %s' % (e, tk, items)})
+        for name, k, asc in (('C.topk50', 50, False), ('C.topk4a', 4, True)):
+            want = ['%d=%d' % kv for kv in sorted(exp.items(), key=lambda kv: ((kv[1] if asc else -kv[1]), kv[0]))[:k]]
+            for rk in range(h.n):
+                got = Q.get((e, name), {}).get(rk)
+                if got is not None and got.split() != want:
+                    fails.append({'what': 'counting_set topk (k = %d, %s first) after epoch %d on rank %d returned %s, the counts give %s' % (k, 'least' if asc else 'greatest', e, rk, got.split()[:8], want[:8])})
+                    break
         fx = sum(int(x.split()[1]) for x in Q.get((e, 'for_all'), {}).values())
         if fx != sum(exp.values()):
             fails.append({'what': 'counting_set for_all summed %d after epoch %d, inserts %d' % (fx, e, sum(exp.values()))})
@@ -476,6 +503,16 @@ def oracle_c13(h, r):
         st, _ = state_by_key(D, e, 'A', h.n)
         if sorted(st) != list(range(h.alen)) or any(len(v) != 1 for v in st.values()):
             fails.append({'what': 'array of length %d: for_all after epoch %d presents indices %s' % (h.alen, e, sorted(st)[:40])})
+            continue
+        fa = [x.split() for x in Q.get((e, 'A.for_all'), {}).values()]
+        if fa and len(fa) == h.n:
+            vc, vs, ic, isum, ix = (sum(int(t[i]) for t in fa) for i in range(5))
+            tot = sum(v[0] for v in st.values())
+            if (vc, vs) != (h.alen, tot):
+                fails.append({'what': 'array of length %d on %d ranks: the value-only form of for_all after epoch %d presented %d values (sum %d), the array holds %d (sum %d)' % (h.alen, h.n, e, vc, vs, h.alen, tot)})
+            if (ic, isum, ix) != (h.alen, tot, h.alen * (h.alen - 1) // 2):
+                fails.append({'what': 'array of length %d on %d ranks: for_all (index, value) after epoch %d presented %d elements (value sum %d, index sum %d), expected %d (%d, %d)' % (
+                    h.alen, h.n, e, ic, isum, ix, h.alen, tot, h.alen * (h.alen - 1) // 2)})
     return fails, cases
 
 def oracle_c14(h, r):
